@@ -406,4 +406,124 @@ theorem scanLiteral_eq (fs : List Frame) (h : openTx fs = false) : scanLiteral f
     | some j => rw [hl] at this; simpa using this
     | none => rw [hl] at this; simpa using this
 
+
+/-- bytes at which every scan stops: too short for a frame header, or another generation's salts -/
+def Stops (h : Header) (tail : Bytes) : Prop :=
+  tail.length < 24 ∨ be32 (tail.drop 8) ≠ h.salt1 ∨ be32 (tail.drop 12) ≠ h.salt2
+
+theorem readFrames_stops (full : Bool) (h : Header) (fuel : Nat) (chk : UInt32 × UInt32) (tail : Bytes)
+    (hs : Stops h tail) : readFrames full h fuel chk tail = ([], .eof) := by
+  cases fuel with
+  | zero => rfl
+  | succ k =>
+    simp only [readFrames]
+    rcases hs with h1 | h2
+    · rw [if_pos h1]
+    · by_cases h1 : tail.length < 24
+      · rw [if_pos h1]
+      · rw [if_neg h1, if_pos h2]
+
+/-- chain-valid frames followed by bytes at which the scan stops: BOTH scan modes read exactly
+the frames, wherever in the chain they start -/
+theorem readFrames_serializeFrames_tail (full : Bool) (h : Header) (hp : h.pageSize % 8 = 0)
+    (hs1 : h.salt1 < 4294967296) (hs2 : h.salt2 < 4294967296) (tail : Bytes) (hst : Stops h tail) :
+    ∀ (fs : List Frame) (chk chk' : UInt32 × UInt32) (fuel : Nat), fs.length < fuel →
+      (∀ f ∈ fs, GoodFrame h f) → (full = true → chk' = chk) →
+      readFrames full h fuel chk' (serializeFrames h chk fs ++ tail) = (fs, .eof) := by
+  intro fs
+  induction fs with
+  | nil =>
+    intro chk chk' fuel _ _ _
+    simp only [serializeFrames, List.nil_append]
+    exact readFrames_stops full h fuel chk' tail hst
+  | cons f t ih =>
+    intro chk chk' fuel hf hg hck
+    obtain ⟨k, rfl⟩ : ∃ k, fuel = k + 1 := ⟨fuel - 1, by omega⟩
+    obtain ⟨gd, gp, gpl, gcl⟩ := hg f (by simp)
+    generalize hc1 : cksum h.le chk.1 chk.2 (enc32 f.pgno ++ enc32 f.commit) = c1
+    generalize hc : cksum h.le c1.1 c1.2 f.data = c
+    have hbs : serializeFrames h chk (f :: t) ++ tail =
+        enc32 f.pgno ++ (enc32 f.commit ++ (enc32 h.salt1 ++ (enc32 h.salt2 ++
+          (enc32 c.1.toNat ++ (enc32 c.2.toNat ++ (f.data ++ (serializeFrames h c t ++ tail))))))) := by
+      simp only [serializeFrames, hc1, hc, List.append_assoc]
+    generalize htail : f.data ++ (serializeFrames h c t ++ tail) = rest at hbs
+    rw [hbs]
+    have F4 : be32 (enc32 f.pgno ++ (enc32 f.commit ++ (enc32 h.salt1 ++ (enc32 h.salt2 ++
+          (enc32 c.1.toNat ++ (enc32 c.2.toNat ++ rest)))))) = f.pgno := be32_enc32_append _ _ gpl
+    simp only [readFrames]
+    have L : ¬ (enc32 f.pgno ++ (enc32 f.commit ++ (enc32 h.salt1 ++ (enc32 h.salt2 ++
+          (enc32 c.1.toNat ++ (enc32 c.2.toNat ++ rest)))))).length < 24 := by
+      simp [enc32_length]; omega
+    have D4 : ∀ (a : Nat) (x : Bytes), (enc32 a ++ x).drop 4 = x := by intros; simp [enc32]
+    have D8 : ∀ (a b : Nat) (x : Bytes), (enc32 a ++ (enc32 b ++ x)).drop 8 = x := by intros; simp [enc32]
+    have D12 : ∀ (a b c : Nat) (x : Bytes), (enc32 a ++ (enc32 b ++ (enc32 c ++ x))).drop 12 = x := by
+      intros; simp [enc32]
+    have D16 : ∀ (a b c d : Nat) (x : Bytes), (enc32 a ++ (enc32 b ++ (enc32 c ++ (enc32 d ++ x)))).drop 16 = x := by
+      intros; simp [enc32]
+    have D20 : ∀ (a b c d e : Nat) (x : Bytes),
+        (enc32 a ++ (enc32 b ++ (enc32 c ++ (enc32 d ++ (enc32 e ++ x))))).drop 20 = x := by
+      intros; simp [enc32]
+    have D24 : ∀ (a b c d e g : Nat) (x : Bytes),
+        (enc32 a ++ (enc32 b ++ (enc32 c ++ (enc32 d ++ (enc32 e ++ (enc32 g ++ x)))))).drop 24 = x := by
+      intros; simp [enc32]
+    have T8 : ∀ (a b : Nat) (x : Bytes), (enc32 a ++ (enc32 b ++ x)).take 8 = enc32 a ++ enc32 b := by
+      intros; simp [enc32]
+    rw [if_neg L, D8, D12, D4, D24, D16, D20, T8, F4]
+    rw [be32_enc32_append _ _ hs1, be32_enc32_append _ _ hs2, be32_enc32_append _ _ gcl,
+      be32_enc32_append _ _ (u32_toNat_lt _), be32_enc32_append _ _ (u32_toNat_lt _)]
+    simp only [ne_eq, not_true_eq_false, or_self, if_false]
+    subst htail
+    have hl : ¬ (f.data ++ (serializeFrames h c t ++ tail)).length < h.pageSize := by simp; omega
+    have ht : (f.data ++ (serializeFrames h c t ++ tail)).take h.pageSize = f.data := by rw [← gd]; simp
+    have hd : (f.data ++ (serializeFrames h c t ++ tail)).drop h.pageSize = serializeFrames h c t ++ tail := by
+      rw [← gd]; simp
+    cases full with
+    | true =>
+      have := hck rfl
+      subst this
+      simp only [if_true]
+      rw [if_neg hl, if_neg (by omega), ht, hd, hc1, hc]
+      simp only [not_true_eq_false, or_self, if_false, gp]
+      rw [ih c c k (by simpa using hf) (fun g hg' => hg g (by simp [hg'])) (fun _ => rfl)]
+    | false =>
+      simp only [Bool.false_eq_true, if_false, gp, ht, hd]
+      rw [ih c chk' k (by simpa using hf) (fun g hg' => hg g (by simp [hg'])) (fun h => by cases h)]
+
+/-- dropping whole frames from a serialised chain leaves the serialised rest of the chain -/
+theorem serializeFrames_drop (h : Header) : ∀ (fs : List Frame) (chk : UInt32 × UInt32) (k : Nat),
+    (∀ f ∈ fs, f.data.length = h.pageSize) → k ≤ fs.length →
+    ∃ chk', (serializeFrames h chk fs).drop (k * frameSize h) = serializeFrames h chk' (fs.drop k) := by
+  intro fs
+  induction fs with
+  | nil => intro chk k _ hk; exact ⟨chk, by simp [serializeFrames]⟩
+  | cons f t ih =>
+    intro chk k hd hk
+    cases k with
+    | zero => exact ⟨chk, by simp⟩
+    | succ j =>
+      have hfd := hd f (by simp)
+      obtain ⟨c', hc'⟩ := ih (cksum h.le (cksum h.le chk.1 chk.2 (enc32 f.pgno ++ enc32 f.commit)).1
+        (cksum h.le chk.1 chk.2 (enc32 f.pgno ++ enc32 f.commit)).2 f.data) j
+        (fun g hg => hd g (by simp [hg])) (by simpa using hk)
+      refine ⟨c', ?_⟩
+      have e : (j + 1) * frameSize h = frameSize h + j * frameSize h := by rw [Nat.succ_mul]; omega
+      simp only [serializeFrames, List.drop_succ_cons]
+      rw [← hc', e, ← List.drop_drop]
+      congr 1
+      apply List.drop_left'
+      simp [enc32_length, frameSize, hfd]; omega
+
+theorem serializeFrames_length_eq (h : Header) : ∀ (fs : List Frame) (chk : UInt32 × UInt32),
+    (∀ f ∈ fs, f.data.length = h.pageSize) → (serializeFrames h chk fs).length = fs.length * frameSize h := by
+  intro fs
+  induction fs with
+  | nil => intro _ _; simp [serializeFrames]
+  | cons f t ih =>
+    intro chk hd
+    have := ih (cksum h.le (cksum h.le chk.1 chk.2 (enc32 f.pgno ++ enc32 f.commit)).1
+      (cksum h.le chk.1 chk.2 (enc32 f.pgno ++ enc32 f.commit)).2 f.data) (fun g hg => hd g (by simp [hg]))
+    simp only [serializeFrames, List.length_append, enc32_length, this, hd f (by simp), List.length_cons,
+      frameSize, Nat.succ_mul]
+    omega
+
 end RqModel.Wal
